@@ -218,8 +218,19 @@ def gen_cases(ctx, n):
             for d in (od, nd):
                 for k in ("mk", "mk2", "deco"):
                     d[k] = ("func", k, None)
+        split = []
+        if i % 15 == 9:
+            # order stream: one old object bound to two names is paired with two different new functions;
+            # the common names are patched in sorted order, the last one wins
+            pre = "def mkA():\n    def inner(): return 'A'\n    return inner\ndef mkB():\n    def inner(): return 'B'\n    return inner\n"
+            a, b = r.sample(["f", "g", "h", "k"], 2)
+            osrc = pre + "%s = %s = mkA()\n" % (a, b)
+            nsrc = pre + "%s = mkA()\n%s = mkB()\n" % (a, b)
+            od = {a: ("shared",), b: ("shared",), "mkA": ("func", "mkA", None), "mkB": ("func", "mkB", None)}
+            nd = {a: ("func", "inner", None), b: ("func", "inner", None), "mkA": ("func", "mkA", None), "mkB": ("func", "mkB", None)}
+            split = [a, b]
         cases.append({"kind": "pair", "i": i, "tag": "%d_%d" % (ctx.seed % 100000, i), "old": osrc, "new": nsrc,
-                      "od": od, "nd": nd, "pkg": i % 4 == 1, "mode": mode})
+                      "od": od, "nd": nd, "pkg": i % 4 == 1, "mode": mode, "split": split})
     return cases
 
 
@@ -358,7 +369,9 @@ def bases_assignable(oldc, newc):
 OBSERVE = r'''
 import types
 def _call(f, *a):
-    try: return repr(f(*a))
+    try:
+        r = f(*a)
+        return '<function %s>' % r.__qualname__ if isinstance(r, types.FunctionType) else repr(r)
     except Exception as e: return 'EXC ' + type(e).__name__
 def _members(c, inst):
     out = {}
@@ -793,6 +806,8 @@ def oracle_case(ctx, c, im):
         ctx.violation("module_dunders", c, {"after_reload": im["after"]["dunders"], "fresh_import": fresh["dunders"]})
     # namespace observationally equal to a fresh import
     for n in sorted(set(im["after"]["names"]) & set(fresh["names"])):
+        if n in c.get("split", []):
+            continue          # one old object cannot become two different new ones: no claim
         a, b = im["after"]["names"][n], fresh["names"][n]
         if a != b:
             why = classify_namespace_difference(n, a, b, c)
@@ -879,7 +894,7 @@ def compare(ctx, cases, impl, index, model):
 
 
 def run(ctx):
-    n = 240 if ctx.quick else 6000
+    n = int(os.environ.get("VERIF_C16_N", 200 if ctx.quick else 6000))
     ctx.coverage["rule"] = (
         "one case = a generated (old, new) pair of module versions (plain / closure-made / decorated / aliased "
         "functions with defaults, docs and attributes; classes with methods, static and class methods, properties, "
